@@ -3,7 +3,8 @@
 (* For every text over Sym with up to MaxSent sentinel occurrences           *)
 (* (n <= MaxN; "a$b$"-style multi-sequence texts included), every Occ rate   *)
 (* in OccRates (the Occ machine of C04 with threshold T is what `occ` calls) *)
-(* and every non-empty sentinel-free pattern of length <= MaxP:              *)
+(* and every non-empty sentinel-free pattern of length <= MaxP, on the       *)
+(* suffix array of every admissible order of the sentinel occurrences:       *)
 (*   Start(p)  a search on the index (the index is immutable: nothing a      *)
 (*             search leaves behind can influence the next one, so searches  *)
 (*             start from the idle index only)                               *)
@@ -23,7 +24,7 @@ NoRes == [kind |-> -1, lower |-> 0, upper |-> 0, len |-> 0]
 
 Init ==
     /\ t \in Texts
-    /\ sa = SortedSA(t)
+    /\ sa \in AdmissibleSAs(t)            \* the suffix array of any admissible sentinel order
     /\ \E k \in OccRates : ix = MkIndex(t, sa, k, T, Sym \cup {Sent})
     /\ mode = "idle" /\ p = << >> /\ st = 0 /\ res = NoRes
 
